@@ -102,6 +102,7 @@ type FBDNSDB struct {
 	handlerConfig HandlerConfig
 	cacheConfig   CacheConfig
 	reloadMu      sync.RWMutex
+	generation    uint64 // number of completed reloads, guarded by reloadMu
 	done          chan struct{}
 	lru           *lru.Cache
 	logger        Logger
@@ -361,6 +362,7 @@ func (h *FBDNSDB) Reload(s ReloadSignal) (err error) {
 	// if we didn't timeout and reloading finished without errors
 	h.dnsdb = newDB
 	h.dbConfig.Path = newPath
+	h.generation++
 	verifYield("reload.swapped")
 
 	if h.cacheConfig.Enabled && h.lru != nil {
@@ -380,9 +382,28 @@ func (h *FBDNSDB) Reload(s ReloadSignal) (err error) {
 // providing a consistent view on the DB during a query.
 // The Reader must be `Close`d when not needed anymore.
 func (h *FBDNSDB) AcquireReader() (db.Reader, error) {
+	reader, _, err := h.acquireReader()
+	return reader, err
+}
+
+// acquireReader is AcquireReader which also tells which reload generation the
+// reader belongs to.
+func (h *FBDNSDB) acquireReader() (db.Reader, uint64, error) {
 	h.reloadMu.RLock()
 	defer h.reloadMu.RUnlock()
-	return db.NewReader(h.dnsdb)
+	reader, err := db.NewReader(h.dnsdb)
+	return reader, h.generation, err
+}
+
+// cacheAdd stores a response in the cache unless a reload completed since the
+// reader it was computed with was acquired: the reload purged the cache, and an
+// answer from the previous database must not be put back.
+func (h *FBDNSDB) cacheAdd(generation uint64, key string, entry cacheEntry) {
+	h.reloadMu.RLock()
+	defer h.reloadMu.RUnlock()
+	if generation == h.generation {
+		h.lru.Add(key, entry)
+	}
 }
 
 // Close closes the database. It also takes care of closing the channel used
